@@ -479,17 +479,28 @@ def suite_confine(binf, tier, rng):
                {"op": "open", "fl": fl, "w": 2, "key": K}, {"op": "wchunk", "w": 2, "data": D.hex(), "mode": "write_all"}, {"op": "drop", "w": 2},
                {"op": "insert", "fl": fl, "key": K, "sri": sri, "size": 3},
                {"op": "remove", "fl": fl, "key": K}, {"op": "write", "fl": fl, "key": K, "data": D.hex(), "algo": "sha1"},
+               # an entry whose content is gone: read-only calls must stay read-only on it
+               {"op": "remove_hash", "fl": fl, "sri": hashes.sri("sha1", D)},
+               {"op": "read", "fl": fl, "key": K}, {"op": "metadata", "fl": fl, "key": K}, {"op": "ropen", "fl": fl, "r": 2, "key": K}, {"op": "list"},
+               {"op": "copy", "fl": fl, "by": "key", "checked": True, "key": K, "to": "out3"},
                {"op": "remove_opts", "fl": fl, "key": K, "fully": True}, {"op": "remove_hash", "fl": fl, "sri": sri},
                {"op": "write_hash", "fl": fl, "data": D.hex(), "algo": "sha512"}, {"op": "clear", "fl": fl}, {"op": "list"}]
+        # a cache driven through the raw index API only (nothing but index-v5 inside), alone in its parent directory
+        ops_idx = [{"op": "insert", "fl": fl, "key": K, "sri": sri, "size": 3}, {"op": "metadata", "fl": fl, "key": K}, {"op": "list"},
+                   {"op": "remove", "fl": fl, "key": K}, {"op": "remove_opts", "fl": fl, "key": K, "fully": True}, {"op": "list"}]
         ops = [{k: v for k, v in op.items() if v is not None} for op in ops]
         base = tempfile.mkdtemp(prefix="cf", dir=T.SCRATCH if os.path.isdir(T.SCRATCH) else None)
         try:
-            cache, ext, cwd = os.path.join(base, "c"), os.path.join(base, "e"), os.path.join(base, "cwd")
+          for variant, ops in (("full", ops), ("index-only", ops_idx)):
+            shutil.rmtree(base, ignore_errors=True); os.makedirs(base)
+            cache, ext, cwd = os.path.join(base, "solo", "c"), os.path.join(base, "e"), os.path.join(base, "cwd")
             for d in (cache, ext, cwd): os.makedirs(d)
             before_out = sorted(os.listdir(cwd))
             tr = T.trace_ops(binf, cache, ext, ops, cwd=cwd)
             out["runs"] += 1
             rep = {"flavour": binf, "key": K, "ops": ops}
+            if not os.path.isdir(os.path.join(base, "solo")):
+                out["failures"].append({"concrete": True, "text": f"key {key!r} ({variant}): the directory that holds the cache directory was deleted", "replay": rep})
             bad = T.outside_mutations(tr["calls"], allow_ext=True)
             if bad:
                 out["failures"].append({"concrete": True, "text": f"key {key!r}: a mutating system call names a path outside the cache: {T.brief(bad[0])[:160]}", "replay": rep})
@@ -588,6 +599,24 @@ def suite_conc(binf, tier, rng):
     from concurrent.futures import ThreadPoolExecutor
     out = {"runs": 0, "skipped": 0, "failures": [], "dist": {}, "serial_AB": 0, "serial_BA": 0}
     fl = "sync" if binf == "sync" else "async"
+    # premise of the model's atomic Append step: one record = ONE write(2) on the O_APPEND descriptor, whatever its size
+    for nraw in (10, 300000, 921600):
+        base = tempfile.mkdtemp(prefix="ap", dir=T.SCRATCH)
+        try:
+            c, e = os.path.join(base, "c"), os.path.join(base, "e")
+            os.makedirs(c); os.makedirs(e)
+            op = {"op": "insert", "fl": fl, "key": kx("big"), "sri": hashes.sri("sha256", b"x"), "raw": (bytes(range(256)) * (nraw // 256 + 1))[:nraw].hex(), "time": "5"}
+            tr = T.trace_ops(binf, c, e, [op], warmup=T.default_warmup(binf))
+            lo, hi = tr["spans"][0]
+            ws = [x for x in tr["calls"][lo:hi] if x["name"] in ("write", "pwrite64", "writev") and (x.get("fdpath") or ("", ""))[1].startswith("index-v5/")]
+            T.cleanup(tr)
+            out["runs"] += 1
+            out["dist"][f"append syscalls for a {nraw}-byte raw_metadata record"] = len(ws)
+            if len(ws) != 1 or "O_APPEND" not in "".join(str(x.get("flags") or "") for x in tr["calls"][lo:hi] if x["name"] in ("openat", "open")):
+                out["failures"].append({"concrete": True, "text": f"an index record ({nraw} bytes of raw metadata) was appended by {len(ws)} write calls {[x.get('count') for x in ws]} instead of one O_APPEND write: concurrent appenders can splice it",
+                                        "replay": {"flavour": binf, "op": {k: (v if k != 'raw' else f'{nraw} bytes') for k, v in op.items()}, "writes": [x.get("count") for x in ws]}})
+        finally:
+            shutil.rmtree(base, ignore_errors=True)
     ops = conc_ops(fl)
     K, K2 = kx("k"), kx("k2")
     A = b"content A"
